@@ -125,6 +125,25 @@ Theorem C07_adaptive_clients :
 Proof. exact adaptive_init. Qed.
 Print Assumptions C07_adaptive_clients.
 
+(* Known finding (open): require( size_t( -1 ) ) - only internal::everything asks for it.  The
+   pointer sum m_current.data + amount wraps modulo 2^64, the first test of require() succeeds
+   with nothing buffered and `everything` consumes only what is already in the buffer, whereas
+   memory_input consumes the whole input.  The executable model has amounts in nat and is
+   exact whenever the sum does not wrap (C07_everything_wrap_partial). *)
+Theorem C07_everything_wrap_refuted :
+  exists base cur e amount : N,
+    (base + e < 2 ^ 64)%N /\ (amount < 2 ^ 64)%N /\ (cur <= e)%N /\
+    early_return_wrapped base cur e amount = true /\ ~ (cur + amount <= e)%N.
+Proof. exact everything_wrap_refuted. Qed.
+Print Assumptions C07_everything_wrap_refuted.
+
+Theorem C07_everything_wrap_partial :
+  forall base cur e amount : N,
+  (base + cur + amount < 2 ^ 64)%N ->
+  early_return_wrapped base cur e amount = (cur + amount <=? e)%N.
+Proof. exact everything_wrap_partial. Qed.
+Print Assumptions C07_everything_wrap_partial.
+
 (* ------------------------------------------------------------------ concrete machines *)
 
 (* string<'a','b','c'>, discard, string<'a','b','c'>, eof on "abcabc", maximum 3, chunk 2,
